@@ -67,12 +67,28 @@ ABTI_thread_get_ythread_or_null(ABTI_thread *p_thread)
 
 static inline void ABTI_thread_set_request(ABTI_thread *p_thread, uint32_t req)
 {
+#ifdef ABT_VERIF
+    if (ABTI_VERIF_ON()) {
+        ABTI_VERIF_BEGIN();
+        uint32_t verif_old = ABTD_atomic_fetch_or_uint32(&p_thread->request, req);
+        ABTI_VERIF_END(ABTI_VEV_REQ_OR, p_thread, req, verif_old);
+        return;
+    }
+#endif
     ABTD_atomic_fetch_or_uint32(&p_thread->request, req);
 }
 
 static inline void ABTI_thread_unset_request(ABTI_thread *p_thread,
                                              uint32_t req)
 {
+#ifdef ABT_VERIF
+    if (ABTI_VERIF_ON()) {
+        ABTI_VERIF_BEGIN();
+        ABTD_atomic_fetch_and_uint32(&p_thread->request, ~req);
+        ABTI_VERIF_END(ABTI_VEV_REQ_AND, p_thread, req, 0);
+        return;
+    }
+#endif
     ABTD_atomic_fetch_and_uint32(&p_thread->request, ~req);
 }
 
@@ -88,8 +104,10 @@ static inline int ABTI_thread_handle_request(ABTI_thread *p_thread,
     return ABTI_THREAD_HANDLE_REQUEST_NONE;
 #else
     /* At least either cancellation or migration is enabled. */
+    ABTI_VERIF_BEGIN();
     const uint32_t request =
         ABTD_atomic_acquire_load_uint32(&p_thread->request);
+    ABTI_VERIF_END(ABTI_VEV_REQ_LOAD, p_thread, allow_termination, request);
 
     /* Check cancellation request. */
 #ifndef ABT_CONFIG_DISABLE_CANCELLATION
@@ -140,8 +158,10 @@ static inline void ABTI_thread_terminate(ABTI_global *p_global,
         }
     }
     if (!(thread_type & ABTI_THREAD_TYPE_NAMED)) {
+        ABTI_VERIF_BEGIN();
         ABTD_atomic_release_store_int(&p_thread->state,
                                       ABT_THREAD_STATE_TERMINATED);
+        ABTI_VERIF_END(ABTI_VEV_STATE, p_thread, ABT_THREAD_STATE_TERMINATED, 0);
         ABTI_thread_free(p_global, ABTI_xstream_get_local(p_local_xstream),
                          p_thread);
     } else {
@@ -149,8 +169,10 @@ static inline void ABTI_thread_terminate(ABTI_global *p_global,
          * because the ULT can be freed on a different ES.  In other words, we
          * must not access any field of p_thead after changing the state to
          * TERMINATED. */
+        ABTI_VERIF_BEGIN();
         ABTD_atomic_release_store_int(&p_thread->state,
                                       ABT_THREAD_STATE_TERMINATED);
+        ABTI_VERIF_END(ABTI_VEV_STATE, p_thread, ABT_THREAD_STATE_TERMINATED, 1);
     }
 }
 
